@@ -425,7 +425,12 @@ def _stores(f, l):
 
 
 def _is_prime_op(f, o):
-    return any(q["k"] == "const" and (q.get("named") or "").endswith("SETSUM_PRIMES") for q in P.origins(f, o, through_calls=False))
+    if any(q["k"] == "const" and (q.get("named") or "").endswith("SETSUM_PRIMES") for q in P.origins(f, o, through_calls=False)):
+        return True
+    # the column's prime handed out by an iterator over SETSUM_PRIMES zipped with the columns (origins are positional through zip)
+    srcs = P.origins(f, o)
+    return any(q["k"] == "const" and (q.get("named") or "").endswith("SETSUM_PRIMES") and q.get("via_next") for q in srcs) and \
+        not any(q["k"] in ("param", "bin") for q in srcs)
 
 
 def _ix_roots(f, o, depth=0):
@@ -433,6 +438,16 @@ def _ix_roots(f, o, depth=0):
     out = set()
     if o is None or o.get("k") not in ("copy", "move") or depth > 6:
         return out
+    if depth == 0:
+        # an element of a zip chain: its `column` is the turn of the loop it was handed out in
+        via = {(q["via_next"], bool(q.get("plain"))) for q in P.origins(f, o) if q.get("via_next") and q["k"] in ("param", "const", "agg")}
+        if any(not pl_ for _v, pl_ in via):
+            return {("reordered", id(o))}       # a chain with rev / skip / step_by does not pair equal columns
+        if via and not any(isinstance(e, dict) and "ix" in e for e in o["pl"]["p"]):
+            direct = [e for e in o["pl"]["p"] if isinstance(e, dict) and "ix" in e]
+            if not direct:
+                got = _ix_roots(f, o, depth + 1)
+                return got or {("turn", v) for v in via}
     for e in o["pl"]["p"]:
         if isinstance(e, dict) and "ix" in e:
             out.add(K.root_local(f, {"k": "copy", "pl": {"l": e["ix"], "p": []}}))
